@@ -56,7 +56,7 @@ def run(job):
     if os.path.exists(os.path.join(d, "STALE")):
         return vid, prop, -1, ["stale patch"]
     r = subprocess.run([os.path.join(VERIF, "check"), prop, "--repo", d], cwd=VERIF, stdout=subprocess.PIPE, stderr=subprocess.STDOUT, text=True,
-                       env=dict(os.environ, THV_CACHE_MAX="600"))
+                       env=dict(os.environ, THV_CACHE_MAX="900"))
     keys = [l.split(" -- ")[0][len("violated: "):] for l in r.stdout.splitlines() if l.startswith("violated: ")]
     if r.returncode == 2:
         keys = [l for l in r.stdout.splitlines() if "CHECKER-ERROR" in l or "Error" in l][-1:]
